@@ -77,6 +77,9 @@
 //     path); when it does not copy it writes into the array every other reader of S sees.  A full slice
 //     expression S[a:b:b] is accepted (forces the copy).  Not flagged: fields of types that only
 //     functions reachable from the roots construct (per-call objects: cursors, scanners)
+//
+// The same file carries two more tables, lock_table and view_table (added for seeded/C18-w3-1, C18-w3-2):
+// rules in locks.go.
 package main
 
 import (
@@ -1358,7 +1361,7 @@ func main() {
 	sb.WriteString("   For each helper: the package-level variables it may touch (through the static call graph\n")
 	sb.WriteString("   inside the repository's packages), read or write, synchronised or not, and the function\n")
 	sb.WriteString("   in which the access occurs. *)\n")
-	sb.WriteString("From Coq Require Import List String.\nFrom Storage Require Import Db.Access.\nImport ListNotations.\nOpen Scope string_scope.\n\n")
+	sb.WriteString("From Coq Require Import List String.\nFrom Storage Require Import Db.Access Db.LockTable Db.MemView.\nImport ListNotations.\nOpen Scope string_scope.\n\n")
 	sb.WriteString("Definition table : list helper := [\n")
 	for ri, r := range roots {
 		accs := closure(r)
@@ -1379,7 +1382,11 @@ func main() {
 		}
 		sb.WriteString("\n")
 	}
-	sb.WriteString("].\n")
+	sb.WriteString("].\n\n")
+	// locks.go: joined calls vs. the lock of the handle; views of memory that is not owned
+	sb.WriteString(lockTableCoq(order))
+	sb.WriteString("\n")
+	sb.WriteString(viewTableCoq(order))
 	fmt.Print(sb.String())
 }
 
